@@ -24,7 +24,7 @@ def context(tier, seed):
         pitches, maxlen = [0, 1, third], 4
     else:
         pitches, maxlen = [1, third], 6
-    syms = [f"{k}:{c}:{p}" for k in ("on", "off") for c in (0, 1) for p in pitches] + ["w1", "w2", "w0", "ts34", "ts44", "ksC", "ksG"]
+    syms = [f"{k}:{c}:{p}" for k in ("on", "off") for c in (0, 1) for p in pitches] + ["on0:0:1", "w1", "w2", "w0", "ts34", "ts44", "ksC", "ksG"]
     ctx = {"syms": syms, "maxlen": maxlen, "tier": tier,
            "bounds": {"alphabet": syms, "max_word_length": maxlen, "words": sum(len(syms) ** k for k in range(maxlen + 1))}}
     if tier != "quick":
@@ -84,6 +84,8 @@ def mk(sym):
     k, c, p = sym.split(":")
     if k == "on":
         return Message(message_type=MT.NOTE_ON, channel=int(c), note=int(p), velocity=64)
+    if k == "on0":      # a note-on with the smallest legal velocity field, 0: still a note-on for the library
+        return Message(message_type=MT.NOTE_ON, channel=int(c), note=int(p), velocity=0)
     return Message(message_type=MT.NOTE_OFF, channel=int(c), note=int(p))
 
 
@@ -109,7 +111,7 @@ def analyse(word):
             if key[0] == key[1]:
                 facts.add("pitch_equals_channel_number")
             d = depth.get(key, 0)
-            if k == "on":
+            if k in ("on", "on0"):
                 if d > 0:
                     facts.add("retrigger")
                     facts.add("nested")
